@@ -166,6 +166,16 @@ class _Log:
         return lambda *a, **k: None
 
 
+def wtmp_dir():
+    """a directory every user can reach and write to (the scratch tree may live under a private home directory)"""
+    base = "/dev/shm" if os.path.isdir("/dev/shm") and os.access("/dev/shm", os.W_OK) else SCRATCH
+    d = os.path.join(base, "verif_wtmp_%s" % (os.environ.get("VERIF_WTMP_TAG") or os.getppid()))
+    if not os.path.isdir(d):
+        os.makedirs(d, exist_ok=True)
+        os.chmod(d, 0o1777)
+    return d
+
+
 def make_cfg(uid, gid, initgroups, timeout=None):
     from gunicorn.config import Config
     cfg = Config()
@@ -173,17 +183,7 @@ def make_cfg(uid, gid, initgroups, timeout=None):
         cfg.set("timeout", timeout)        # 0: the documented "no worker timeout"; the workers still heartbeat
     # heartbeat files go to a scratch directory any user may write to (a master that fails to hand the file over leaves
     # it behind)
-    wtmp = os.path.join(SCRATCH, "wtmp")
-    if not os.path.isdir(wtmp):
-        os.makedirs(wtmp, exist_ok=True)
-        os.chmod(wtmp, 0o1777)
-    for d_ in (SCRATCH, os.path.dirname(SCRATCH)):
-        try:
-            if os.stat(d_).st_mode & 0o005 != 0o005:
-                os.chmod(d_, os.stat(d_).st_mode | 0o755)
-        except OSError:
-            pass
-    cfg.set("worker_tmp_dir", wtmp)
+    cfg.set("worker_tmp_dir", wtmp_dir())
     cfg.set("user", uid)
     cfg.set("group", gid)
     cfg.set("initgroups", initgroups)
@@ -291,6 +291,8 @@ def run_real_child(spec, out_fd):
            "calls": []}
     try:
         import gunicorn.config, gunicorn.workers.base, gunicorn.workers.workertmp, gunicorn.util   # noqa: before the drop
+        if spec["case"]["master"] == "rootsplit":
+            os.setegid(spec["master_gid"])        # real gid 0, effective gid G: a supervisor that only called setegid
         if spec["case"]["master"] == "user":
             os.setgroups([spec["master_gid"]])
             os.setresgid(*[spec["master_gid"]] * 3)
@@ -460,6 +462,20 @@ def run_server(spec):
         tgt += ["--group", str(spec["group"])]
     if spec.get("initgroups"):
         tgt += ["--initgroups"]
+    if spec.get("cwdconf"):
+        # user / group / chdir come from the default configuration file ./gunicorn.conf.py of the start directory (no -c);
+        # the application lives in the directory the file's chdir names
+        os.makedirs(os.path.join(d, "src"))
+        os.chmod(os.path.join(d, "src"), 0o755)
+        os.rename(os.path.join(d, "privsapp.py"), os.path.join(d, "src", "privsapp.py"))
+        with open(os.path.join(d, "gunicorn.conf.py"), "w") as f:
+            f.write("user = %r\ngroup = %r\nchdir = %r\n" % (spec["user"], spec["group"], os.path.join(d, "src")))
+        i = cmd.index("--chdir")
+        del cmd[i:i + 2]
+        for flag in ("--user", "--group"):
+            if flag in tgt:
+                i = tgt.index(flag)
+                del tgt[i:i + 2]
     conf = os.path.join(d, "conf.py")
     if spec.get("badhup"):
         # a configuration file that is valid at start and invalid when HUP re-reads it
